@@ -82,6 +82,11 @@ pub fn run_lsearch(case: &serde_json::Value, out: &mut String) {
     traj.extend(steps);
     writeln!(out, "TRAJ {}", traj.iter().map(|s| vecstr(&objvec(s))).collect::<Vec<_>>().join(" ")).unwrap();
     writeln!(out, "RESULT {}", vecstr(&objvec(&result))).unwrap();
+    // every accepted schedule is dumped so that the truthfulness of the compared values can be checked (C09 on
+    // the trajectory); the candidate enumeration below examines only some steps
+    for (i, st) in traj.iter().enumerate().skip(1).take(40) {
+        dump_schedule(st, &format!("traj{}", i), out);
+    }
     let nb = neighborhood(&nw);
     let maxexam = case["examine"].as_u64().unwrap_or(3) as usize;
     // examine the first steps and the last one
